@@ -26,7 +26,7 @@ var R = hx.NewRecorder("C02", "cases = (key, plaintext, ordering, raw|ASN.1|cryp
 var cv = rsm2.Std
 
 func TestMain(m *testing.M) {
-	R.Require("len==0", "len%32==0", "len%32==31", "x2y2_leading_zero", "asn1", "c1c2c3", "c1c3c2", "trunc<97", "offcurve_order2", "offcurve_consistent", "wrong_key", "mode_confusion", "subst_c1", "subst_c2", "subst_c3")
+	R.Require("c1_x_plus_p", "len==0", "len%32==0", "len%32==31", "x2y2_leading_zero", "asn1", "c1c2c3", "c1c3c2", "trunc<97", "offcurve_order2", "offcurve_consistent", "wrong_key", "mode_confusion", "subst_c1", "subst_c2", "subst_c3")
 	hx.Main(m, R)
 }
 
@@ -474,4 +474,67 @@ func TestC02_Replay(t *testing.T) {
 		t.Fatalf("GM/T 0003.5 encryption example: %X %v", ct, err)
 	}
 	R.Case(true, hx.HashKey("replay"), "replay")
+}
+
+// Ciphertexts built by the key holder around a chosen C1 with a SMALL x coordinate (no nonce is known for such points,
+// but whoever holds d can compute [d]C1): the genuine one must decrypt, and the one whose x coordinate is written as
+// x + p - same residue, not a field element, so not "a point on the curve" - must be refused, in every form.
+func TestC02_NonCanonicalC1(t *testing.T) {
+	// curve points with the smallest x coordinates
+	var pts []rsm2.Point
+	e := new(big.Int).Add(cv.P, big.NewInt(1))
+	e.Rsh(e, 2)
+	for x := int64(1); len(pts) < 6; x++ {
+		X := big.NewInt(x)
+		rhs := new(big.Int).Exp(X, big.NewInt(3), cv.P)
+		rhs.Add(rhs, new(big.Int).Mul(cv.A, X)).Add(rhs, cv.B).Mod(rhs, cv.P)
+		y := new(big.Int).Exp(rhs, e, cv.P)
+		if cv.OnCurve(X, y) {
+			pts = append(pts, rsm2.Point{X: X, Y: y})
+		}
+	}
+	hx.Check(t, hx.N(120, 2000), func(t *rapid.T) {
+		key := gen.KeyPair(hx.Root()).Draw(t, "key")
+		c1 := pts[rapid.IntRange(0, len(pts)-1).Draw(t, "c1")]
+		msg := rapid.SliceOfN(rapid.Byte(), 1, 80).Draw(t, "msg")
+		mode := rapid.SampledFrom([]int{sm2.C1C3C2, sm2.C1C2C3}).Draw(t, "mode")
+		form := rapid.SampledFrom([]string{"raw", "asn1", "decrypter"}).Draw(t, "form")
+		if form != "raw" {
+			mode = sm2.C1C3C2
+		}
+		s := cv.Mul(c1, key.D)
+		x2, y2 := rsm2.Pad32(s.X), rsm2.Pad32(s.Y)
+		ks, zero := rsm2.KDF(len(msg), x2, y2)
+		if zero {
+			t.Skip("all-zero key stream")
+		}
+		c2 := make([]byte, len(msg))
+		for i := range msg {
+			c2[i] = msg[i] ^ ks[i]
+		}
+		c3 := rsm3.Sum(append(append(append([]byte{}, x2...), msg...), y2...))
+		build := func(x *big.Int) []byte {
+			raw := append([]byte{4}, rsm2.Pad32(x)...)
+			raw = append(raw, rsm2.Pad32(c1.Y)...)
+			if mode == sm2.C1C2C3 {
+				return append(append(raw, c2...), c3...)
+			}
+			return append(append(raw, c3...), c2...)
+		}
+		ec := &encCase{form: form, mode: mode}
+		priv := sm2x.Priv(key)
+		pt, err, pn := decrypt(ec, priv, build(c1.X))
+		if pn != nil || err != nil || !bytes.Equal(pt, msg) {
+			t.Fatalf("a valid ciphertext around C1 = (%v, ...) does not decrypt (form %s mode %d): err=%v panic=%v", c1.X, form, mode, err, pn)
+		}
+		big := new(big.Int).Add(c1.X, cv.P)
+		pt, err, pn = decrypt(ec, priv, build(big))
+		if pn != nil {
+			t.Fatalf("Decrypt panicked on C1 with x + p: %v", pn.Val)
+		}
+		if err == nil {
+			t.Fatalf("Decrypt (form %s mode %d) ACCEPTED a ciphertext whose C1 has the x coordinate %x = x + p (not a field element); returned %x", form, mode, big, pt)
+		}
+		R.Case(true, hx.HashKey("noncanon", key.D.Bytes(), c1.X.Int64(), msg, mode, form), "c1_x_plus_p", "form:"+form)
+	})
 }
